@@ -42,6 +42,9 @@ struct WakeCase {
     oblig: bool,
     oracle: Vec<(String, String, String)>,
     feats: Vec<String>,
+    sq_len: u32,
+    fill_fd: Option<&'static a10::AsyncFd>,
+    fills: Vec<std::pin::Pin<Box<dyn std::future::Future<Output = std::io::Result<Vec<u8>>>>>>,
 }
 
 impl WakeCase {
@@ -67,6 +70,9 @@ impl WakeCase {
             oblig: false,
             oracle: Vec::new(),
             feats: Vec::new(),
+            sq_len: sqn,
+            fill_fd: None,
+            fills: Vec::new(),
         };
         if !ok {
             return c;
@@ -253,6 +259,9 @@ impl Case for WakeCase {
         let w_w = if running.is_empty() { 0 } else { 8 };
         let w_k = if self.mode == "sqpoll" { 3 } else { 0 };
         let w_io = if rng.chance(1, 12) { 1 } else { 0 };
+        if rng.chance(1, 8) {
+            return Some("wake fill".into());
+        }
         let w_bad = if rng.chance(1, 40) { 1 } else { 0 };
         match rng.weighted(&[w_poll, w_p, w_call, w_w, w_k, w_io, w_bad]) {
             0 => Some(format!("wake poll {}", if rng.chance(4, 5) { 1 } else { 0 })),
@@ -364,6 +373,26 @@ impl Case for WakeCase {
                 }
                 format!("k {}", self.state())
             }
+            ["wake", "fill"] => {
+                // somebody starts an operation: queued, not submitted (it never completes)
+                let (_, sq) = self.counts();
+                if sq < self.sq_len {
+                    let fd = self.fill_fd.get_or_insert_with(|| {
+                        let raw = simk::with_ring(self.rfd, |r, _| r.fresh_fd());
+                        Box::leak(Box::new(unsafe { a10::AsyncFd::from_raw_fd(raw, self.sq.as_ref().unwrap().clone()) }))
+                    });
+                    let fd: &'static a10::AsyncFd = fd;
+                    let mut f: std::pin::Pin<Box<dyn std::future::Future<Output = std::io::Result<Vec<u8>>>>> = Box::pin(fd.read(Vec::with_capacity(8)));
+                    let w = util::waker(777);
+                    let mut cx = std::task::Context::from_waker(&w);
+                    sched::uninstall();
+                    let _ = f.as_mut().poll(&mut cx);
+                    sched::install_keep();
+                    self.fills.push(f);
+                    self.feats.push("filler".into());
+                }
+                format!("fill {}", self.state())
+            }
             ["wake", "io"] => {
                 simk::with_ring(self.rfd, |r, ev| r.post_raw(None, Cqe { user_data: 0, res: 0, flags: 0 }, ev));
                 format!("io {}", self.state())
@@ -423,7 +452,14 @@ impl Case for WakeCase {
         }
         sched::finish_all();
         sched::uninstall();
+        self.fills.clear();
         drop(lockp(&self.ring).take());
+        if let Some(fd) = self.fill_fd.take() {
+            if let Some(raw) = fd.as_fd().map(|f| std::os::fd::AsRawFd::as_raw_fd(&f)) {
+                unsafe { libc::close(raw) };
+            }
+            unsafe { drop(Box::from_raw(std::ptr::from_ref(fd).cast_mut())) };
+        }
         drop(self.sq.take());
         simk::drain_events();
         util::drain_wakes();
